@@ -160,8 +160,10 @@ structure WfStatus (s : Status) : Prop where
   values : ∀ v ∈ (s.fields.map (·.2)) ++ (s.players.flatMap fun p => p.map (·.2)) ++ s.objectives.map (·.2),
     v ≠ kQueryid ∧ v ≠ kStatusresponse
 
-/-- cuts on a field sequence of length `len`: strictly increasing, inside the sequence (between
-any two fields, also between a name and its value, as in the captured AdminMod responses) -/
+/-- cuts on a field sequence of length `len` as the generators draw them: strictly increasing,
+inside the sequence (between any two fields, also between a name and its value, as in the
+captured AdminMod responses).  The C08 theorems do not need it: `chunks` is total, and they hold
+for every cut list (out-of-range or repeated cuts only produce empty chunks). -/
 def WfCuts (len : Nat) (cuts : List Nat) : Prop :=
   cuts.Pairwise (· < ·) ∧ (∀ c ∈ cuts, 0 < c ∧ c < len)
 
